@@ -14,7 +14,7 @@ CLAIMS = {
     'C01': _c('Static proof obligations over every path of the public parse(): every call is inside a catch-all whose handlers '
               'cannot raise, every return is a {result,error} record, error is None or str() of a canonical singleton, '
               'error set => result None, result never an error object; closed 9-entry code table (enumerated by abstractly running from_message on an arbitrary argument), who-may-construct XLError; '
-              'every reachable loop matches a termination idiom with the interval facts it needs. Not decided: cost of finite '
+              'every reachable loop matches a termination idiom with the interval facts it needs (monotone counters, iterator drains, a stack of open iterators). Not decided: cost of finite '
               'big-integer work and polynomial backtracking of constant regexes; a regex assembled at run time receives no input-sized number of unbounded quantifiers. str() of an error object cannot raise (a __str__ of the error class returns text for every way the object can be built).',
               'path enumeration + catch-all/handler discipline + literal-table agreement + loop-variant idioms with guard-derived interval facts',
               'DESIGN.md 5 C01'),
@@ -67,7 +67,7 @@ CLAIMS = {
               'delegation-table agreement + role/dataflow rules + summary-list abstract interpretation',
               'DESIGN.md 5 C11'),
     'C12': _c('Predicate truth table over all type tags, derived predicates, parity complement over {0,1}, error conditions propagate, '
-              'truthiness and pairing of IF/IFS/SWITCH (a blank result or default is an argument like any other; 2 and 2.0 are the same case).',
+              'truthiness and pairing of IF/IFS/SWITCH (a blank result or default is an argument like any other; 2 and 2.0 are the same case; conditions after the first true one play no part, not even an error), rows of tuples are arrays for AND/OR/XOR.',
               'type-tag abstract interpretation + finite-quotient evaluation',
               'DESIGN.md 5 C12'),
     'C13': _c('Both date converters extracted as piecewise-affine maps with exact rationals: inverse, strictly monotone, Excel-1900 offset '
@@ -88,7 +88,7 @@ CLAIMS = {
               'delegation-table agreement + guard dominance + polynomial normal form identity',
               'DESIGN.md 5 C16'),
     'C17': _c('Structural clauses only: documented domains enforced by dominating guards (interval facts), termination of loops, '
-              "the 40-bit two's-complement scheme as the piecewise-affine function HEX2DEC/DEC2HEX/DECIMAL compute over a symbolic integer, ROMAN/ARABIC numeral tables agree, one character per digit, a table of scale factors equals 10**i on its whole index range, HEX2DEC(DEC2HEX(n)) = n folded on 22 constants. "
+              "the 40-bit two's-complement scheme as the piecewise-affine function HEX2DEC/DEC2HEX/DECIMAL compute over a symbolic integer, ROMAN/ARABIC numeral tables agree, one character per digit, a table of scale factors equals 10**i on its whole index range, HEX2DEC(DEC2HEX(n)) = n folded on 22 constants, FACT and FACTDOUBLE as exact integers on 24 constants each. "
               'Rounding inequalities and round-trip values NOT decided.',
               'guard dominance with interval facts + piecewise-affine abstract interpretation + table agreement across siblings',
               'DESIGN.md 5 C17'),
@@ -96,7 +96,7 @@ CLAIMS = {
               'MATCH exact scan first-hit and #N/A exits, wildcard roles and a constant table of wildcard lookups, MATCH +-1 on all 7 order types of x against three sorted symbolic items, text and fractional positions, alternatives of CHOOSE that are not addressed play no part. Arrays longer than the instance shapes NOT decided.',
               'guard dominance with integer interval facts + path rules',
               'DESIGN.md 5 C18'),
-    'C19': _c('Label regex language equals the label language (DFA over a 6-class alphabet with Python $ semantics), capture-group roles, '
+    'C19': _c('Label regex language equals the label language (DFA over a 6-class alphabet with Python $ semantics; undecided when extract_label uses no regular expression), 30 constant labels and non-labels (other scripts' letters and digits) through extract_label / to_label and 18 column indices up to seven letters through both converters, capture-group roles, '
               'alphabet constant, exact integer arithmetic in the column and row converters, digit and carry of one step from the same dividend, row converters affine inverses, recomposition order, loop termination, no shared mutable result (mutable default / empty module-level container handed out), the cell and range callbacks build each Cell from the label of the reference at hand (no recalled object, no consulted limit that a constructor writes). Column converters mutually '
               'inverse (bijective base 26) NOT decided.',
               'regex-AST to DFA language equality + affine forms + dataflow roles',
